@@ -734,16 +734,21 @@ Definition rx_result := R (state * list out * rx).
 Definition raw_up (s : state) (from : addr) (b : bytes) (bd : option binding) : rx_result :=
   d <- rd_range b 0 (blen b) ;;
   Ok (s, [], RxData {| h_data := d; h_from := match bd with Some x => b_peer x | None => from end; h_sock := is_some bd |}).
-(* ... unless (RFC 5766 / draft 9) its first two bytes are the number of a bound channel *)
+(* ... unless (RFC 5766 / draft 9) it is a ChannelData message of a bound channel: at least the 4-byte header,
+   the channel number of the binding, and a length field that does not exceed what was received *)
 Fixpoint chan_scan (s : state) (from : addr) (b : bytes) (l : list binding) : rx_result :=
   match l with
   | [] => raw_up s from b None
   | bd :: l' =>
-      ch <- rdw b 0 ;;
-      if b_chan bd =? ch then
-        rl <- rdw b 2 ;;
-        d <- rd_range b 4 (Z.min (blen b) rl) ;;
-        Ok (s, [], RxData {| h_data := d; h_from := b_peer bd; h_sock := true |})
+      if 4 <=? blen b then
+        ch <- rdw b 0 ;;
+        if b_chan bd =? ch then
+          rl <- rdw b 2 ;;
+          if rl <=? blen b - 4 then
+            d <- rd_range b 4 (Z.min (blen b) rl) ;;
+            Ok (s, [], RxData {| h_data := d; h_from := b_peer bd; h_sock := true |})
+          else chan_scan s from b l'
+        else chan_scan s from b l'
       else chan_scan s from b l'
   end.
 Definition recv_tail (s : state) (from : addr) (b : bytes) : rx_result :=
